@@ -775,7 +775,7 @@ class LibMap:
         return None
 
     def lambda_expr(self, em, n):
-        raise Unsupported("lambda outside std::find_if/any_of/all_of/none_of")
+        return em.lift_lambda(n)
 
     def pred_loop(self, em, n, name, args):
         """std::find_if / find_if_not / any_of / all_of / none_of over [b, e) of a modelled sequence with a lambda whose
